@@ -266,6 +266,13 @@ def run(ctx: Ctx) -> None:
                     rebinds = [a for a in p.nodes(sf) if isinstance(a, (ast.Assign, ast.AugAssign)) and any(isinstance(t, ast.Name) and t.id == nm for t in (a.targets if isinstance(a, ast.Assign) else [a.target]))
                                and sc.lineno <= a.lineno <= div.lineno and a.lineno != sc.lineno]
                     same = not rebinds
+                if same:
+                    # the count is taken in the same iteration as the sum: a division placed after the per-function
+                    # loop reads the list of the last function only
+                    from kfv import flow as _flow
+                    l_sum = [id(x) for x in _flow.enclosing_loops(p, sf, sc)]
+                    l_div = [id(x) for x in _flow.enclosing_loops(p, sf, n)]
+                    same = l_sum == l_div
                 ctx.check(same, 'T5', sf, f'mean divides by len({norm(div.args[0])}) of the summed list', norm(n),
                           f'the mean divides sum({norm(sc.args[0])}) by len({norm(div.args[0])}): sum and count are taken over different lists', n)
             else:
